@@ -22,11 +22,12 @@ T0 = 1000000                                      # poxenv.clock starts every hi
 ADD, MODIFY, MODIFY_STRICT, DELETE, DELETE_STRICT = range(5)
 SEND_FLOW_REM, CHECK_OVERLAP, EMERG = 1, 2, 4
 NONE = 0xffff
+CONTROLLER = 0xfffd
 ALLF = FLAG_FIELDS
 
 # ------------------------------------------------------------------ bytes in (independent of POX's pack)
 def act_bytes(a):
-    if a[0] == 0: return struct.pack("!HHHH", 0, 8, a[1], a[2])
+    if a[0] == 0: return struct.pack("!HHHH", 0, 8, a[1], a[2])          # output (port, max_len)
     if a[1] == 1: return struct.pack("!HHHxx", 1, 8, a[2])          # set_vlan_vid
     if a[1] == 3: return struct.pack("!HHxxxx", 3, 8)               # strip_vlan
     raise ValueError(a)
@@ -67,8 +68,8 @@ def parse_out(buf):
             et, ec = struct.unpack("!HH", b[:4])
             outs.append({"k": "err", "t": et, "c": ec})
         elif t == 10:
-            bid, _, port = struct.unpack("!LHH", b[:8])
-            outs.append({"k": "pin", "port": port, "bid": None if bid == 0xffffffff else bid})
+            bid, _, port, reason = struct.unpack("!LHHB", b[:9])
+            outs.append({"k": "pin", "port": port, "bid": None if bid == 0xffffffff else bid, "reason": reason})
         elif t == 17:
             st, fl = struct.unpack("!HH", b[:4])
             body = b[4:]
@@ -97,6 +98,7 @@ def expected_emits(acts, in_port, ln):
     out = []
     for a in acts:
         if a[0] == 0 and 1 <= a[1] <= 4 and a[1] != in_port: out.append([a[1], ln])
+        elif a[0] == 0 and a[1] == CONTROLLER: pass                  # stored and announced by a packet-in, nothing on a port
         elif a[0] == 1 and a[1] != 3: raise ValueError("action outside the buffer alphabet")
     return out
 
@@ -185,11 +187,15 @@ class SpecTable:
             if v is None: self.slots[i] = fr; return i + 1
         if len(self.slots) >= self.bufs: return None
         self.slots.append(fr); return len(self.slots)
+    def to_controller(self, fr, acts):
+        """each output:CONTROLLER among the actions stores the packet and announces it with reason ACTION"""
+        return [{"k": "pin", "port": fr[1], "bid": self.alloc(fr), "reason": 1} for a in acts if a[0] == 0 and a[1] == CONTROLLER]
     def apply_buffer(self, bid, acts):
         if bid != 0 and bid - 1 < len(self.slots) and self.slots[bid - 1] is not None:
             ln, port = self.slots[bid - 1]
+            out = self.to_controller((ln, port), acts)              # while the old buffer is still held
             self.slots[bid - 1] = None
-            return [{"k": "rel", "id": bid, "len": ln, "port": port, "acts": acts}]
+            return out + [{"k": "rel", "id": bid, "len": ln, "port": port, "acts": acts}]
         if bid != 0 and bid - 1 < len(self.slots): return [{"k": "err", "t": 1, "c": 7}]
         return [{"k": "err", "t": 1, "c": 8}]
     def command(self, op):
@@ -243,8 +249,8 @@ class SpecTable:
             for i, f in enumerate(self.flows):
                 if spec_match(f["m"], h):
                     self.flows = self.flows[:i] + [dict(f, pk=f["pk"] + 1, by=f["by"] + ln, tu=self.now)] + self.flows[i + 1:]
-                    return []
-            return [{"k": "pin", "port": op["port"], "bid": self.alloc((ln, op["port"]))}]
+                    return self.to_controller((ln, op["port"]), f["acts"])
+            return [{"k": "pin", "port": op["port"], "bid": self.alloc((ln, op["port"])), "reason": 0}]
         sub = plain_subsumes if self.variant == "stats-request-not-unwired" else (lambda a, b: v_subsumes(a, b, self.variant))
         fs = [f for f in self.flows if sub(op["m"], f["m"]) and port_ok(f, op["out_port"])]
         if k == "fstats":
@@ -278,11 +284,12 @@ M_DST2 = rec(but(DL_DST), dl_dst=MAC2)
 M_DST16 = rec(but(DL_TYPE), dc=16, dl_type=0x0800, nw_dst=0x0a020000)          # overlaps M_NET8 without containment
 M_NET8_O = rec(but(DL_TYPE), sc=24, dl_type=0x0800, nw_src=0x0b000000)         # disjoint from M_NET8
 MATCHES = [M_ALL, M_INPORT1, M_IP, M_NET8, M_TCP80, M_NET16_P1, M_EXACT, M_ARP, M_DST2, M_IP_B, M_DST16, M_NET8_O]
-BUF_ACTS = [0, 1, 2, 3, 4, 6]                     # indices of ACTS usable in a flow-mod that names a buffer (see expected_emits)
+BUF_ACTS = [0, 1, 2, 3, 4, 6, 7, 8]                     # indices of ACTS usable in a flow-mod that names a buffer (see expected_emits)
 PRIOS = [10, 100, 0xffff]
 # max_len is 0 on physical ports: ofp_action_output.pack() itself rewrites it to 0 unless the port is CONTROLLER (so a stats reply
 # would change the stored action; noted in the report, outside the property)
-ACTS = [[[0, 2, 0]], [[0, 3, 0]], [[0, 2, 0], [0, 3, 0]], [], [[1, 3, 0], [0, 2, 0]], [[1, 1, 5]], [[0, 4, 0], [0, 2, 0]]]
+ACTS = [[[0, 2, 0]], [[0, 3, 0]], [[0, 2, 0], [0, 3, 0]], [], [[1, 3, 0], [0, 2, 0]], [[1, 1, 5]], [[0, 4, 0], [0, 2, 0]],
+        [[0, 2, 0], [0, CONTROLLER, 64]], [[0, CONTROLLER, 128], [0, CONTROLLER, 0]]]   # outputs to the controller: stored + packet-in (ACTION)
 
 def fm(cmd, m, prio=100, flags=0, out_port=NONE, acts=None, idle=0, hard=0, cookie=0, buf=None):
     return {"op": "fm", "cmd": cmd, "m": list(m), "cookie": cookie, "idle": idle, "hard": hard, "prio": prio, "out_port": out_port, "flags": flags,
@@ -313,12 +320,10 @@ WITNESSES = {
     "exact_rank_defect": [fm(ADD, M_ARP_EXACT, 1, cookie=1), fm(ADD, M_INPORT1, 100, cookie=2)],
     # C03's D38: dl_type wildcarded with 0x0800 left in the field: nw_src is ignored, the flow is match-all and gets replaced
     "wildcarded_prereq": [fm(ADD, M_ALL_RAWIP, 100, cookie=1), fm(ADD, M_ALL, 100, cookie=2)],
-    # C03's open D36: the same flow written with and without an ECN bit in nw_tos (model-vs-code tie only)
-    "tos_ecn": [fm(ADD, M_TOS0, 100, cookie=1), fm(ADD, M_TOS2, 100, cookie=2)],
 }
-# witnesses that belong to a C03 finding: the oracle is applied only when the tree under test claims that repair (index into the
-# variant read off the source: arpLow8, prereqExact, exactSig); `None` = open finding of C03, never judged here
-C03_GATED = {"exact_rank_defect": 2, "wildcarded_prereq": 1, "arp_opcode_high": 0, "tos_ecn": None}
+# witnesses that belong to a C03 finding: the oracle is applied only when the tree under test has that repair (index into self.cfg:
+# 3 arpLow8, 4 prereqExact, 5 exactSig — read off the source by c03 —, 6 tosDscp — probed); the model-vs-code tie always runs
+C03_GATED = {"exact_rank_defect": 5, "wildcarded_prereq": 4, "arp_opcode_high": 3, "tos_ecn_defect": 6}
 
 
 class C04(Check):
@@ -344,7 +349,7 @@ class C04(Check):
                ("pox/openflow/flow_table.py", "FlowTable.remove_expired_entries"), ("pox/openflow/flow_table.py", "FlowTable.remove_matching_entries"),
                ("pox/openflow/flow_table.py", "FlowTable.entry_for_packet"), ("pox/openflow/flow_table.py", "FlowTable.check_for_overlapping_entry"),
                ("pox/openflow/flow_table.py", "_matches_overlap")]
-    design_ref = "DESIGN.md §5 C04, §6 D23 (fixed, c244d60); repairs proposed for C04-1/2/3: fixes/C04-*.diff"
+    design_ref = "DESIGN.md §5 C04, §6 D23, C04-1/2/3 (fixed); repair proposed for C03's D36 incl. _matches_overlap: fixes/C04_D36_tos_dscp.diff"
     technique = ("Lean 4 proof (invariants over all operation histories; per-operation refinement of the hand-written switch model to a transcription of the "
                  "OpenFlow 1.0 §4.6/§4.7 flow table, lifted to histories by induction; bit-level lemmas tying ofp_match.__eq__ / matches_with_wildcards / "
                  "_matches_overlap to 'same packet set' / subsumption / overlap, and the proposed repairs to the standard's view of a match) + differential "
@@ -359,7 +364,12 @@ class C04(Check):
                   "history_refines_repaired (with the three proposed repairs only C03's open findings D38/D36/D26 remain as hypotheses); selection_meaning, overlap_meaning, "
                   "overlap_check_exact. The unrestricted statement history_refines_full is kept and refuted for both variants (history_refines_full_defect_head / _repaired); "
                   "strict_hostbits_defect, undefined_bits_defect, stats_unwired_defect witness C04-1/2/3 at HEAD and their repair; partial_overlap_witness, cidr_overlap_witness "
-                  "are D23's inputs. Every witness is replayed on the real switch on every run.")
+                  "are D23's inputs. Every witness is replayed on the real switch on every run. "
+                  "flowmod/history_refines also prove that the 40 match bytes each flow-removed / flow-stats message carries (match.pack()) denote exactly the flow's packets (FaithfulOut); "
+                  "step_keeps: hypothesis-free, no step other than sweep / DELETE / ADD-replacement takes an entry out. OpOk is state-dependent: a frame's ECN bits matter only without repair D36 "
+                  "and only while some installed flow compares nw_tos; flow-mods must carry actions the model follows (actsOk: no output:TABLE; outputs only around output:CONTROLLER, which is modelled "
+                  "— pool slot + packet-in reason ACTION). TRUSTED READINGS of the standard that Spec/OF10Table shares with the code: CHECK_OVERLAP compares rank (exact above all priorities) where "
+                  "§4.6 says 'same priority'; an identical flow with CHECK_OVERLAP is refused before replacement; deadlines are strict (>), seen at sweeps; idle wins over hard; newest flow wins ties.")
     level_note = ("Trusted: Lean kernel, axioms propext/Classical.choice/Quot.sound, the hand-written Model/FlowMod.lean (+ C03's Model/Match, Model/FlowTable, C18's BufPool.Pool/alloc), the "
                   "transcriptions Spec/OF10Table.lean and Spec/OF10Match.lean, this harness (virtual clock, byte encoders/parsers, frame header extraction, the probe that tells which code "
                   "variant is under test). The theorems are about the model; the per-run correspondence (exhaustive histories to length 3 over a 16-event alphabet, random histories to "
@@ -394,6 +404,7 @@ class C04(Check):
         self.swnet, self.of, self.pkt, self.IPAddr, self.EthAddr = swnet, of, pkt, IPAddr, EthAddr
         self.c03 = c03.C03(); self.c03.setup()
         self._frames = None
+        self._ecn_case = False
         self.cfg = self.probe_variant()
 
     def probe_variant(self):
@@ -403,11 +414,14 @@ class C04(Check):
         strict_mutual = len(last("strict_hostbits_defect")["table"]) == 1
         mask_undefined = len(last("undefined_bits_defect")["table"]) == 0
         stats_unwire = last("stats_unwired_defect")["outs"] == [{"k": "as", "pk": 0, "by": 0, "n": 1}]
-        return [strict_mutual, mask_undefined, stats_unwire] + list(self.c03.variant)   # + arpLow8, prereqExact, exactSig (C03, off the source)
+        ecn = {"op": "pkt", "frame": self.frames()[5], "port": 1}
+        tos_dscp = self.impl({"max": 100, "ops": [fm(ADD, M_TOS0, 100, cookie=1), ecn]})["steps"][-1]["table"][0][10] == 1   # the packet hit
+        # + arpLow8, prereqExact, exactSig (C03, off the source) + tosDscp (D36, probed)
+        return [strict_mutual, mask_undefined, stats_unwire] + list(self.c03.variant) + [tos_dscp]
 
     def extra_evidence(self):
         return {"code_variant": dict(zip(["C04-1 strictMutual", "C04-2 maskUndefined", "C04-3 statsUnwire", "D37 arpLow8", "D38 prereqExact",
-                                          "D26 exactSig"], self.cfg))}
+                                          "D26 exactSig", "D36 tosDscp"], self.cfg))}
 
     # ---------------------------------------------------------------- frames (real packet library)
     def frames(self):
@@ -416,8 +430,8 @@ class C04(Check):
             def eth(t, payload, src=MAC1, dst=MAC2):
                 e = P.ethernet(src=E(src.to_bytes(6, "big")), dst=E(dst.to_bytes(6, "big")), type=t); e.payload = payload
                 return e.pack()
-            def ip(src, dst, proto, l4):
-                i = P.ipv4(srcip=IP(src), dstip=IP(dst), protocol=proto); i.payload = l4
+            def ip(src, dst, proto, l4, tos=0):
+                i = P.ipv4(srcip=IP(src), dstip=IP(dst), protocol=proto, tos=tos); i.payload = l4
                 return i
             tcp = P.tcp(srcport=1000, dstport=80, off=5, win=1); tcp.payload = b"x" * 20
             udp = P.udp(srcport=53, dstport=5353); udp.payload = b"y" * 7
@@ -429,6 +443,7 @@ class C04(Check):
                 eth(0x0800, ip("10.9.0.1", "10.2.2.2", 6, tcp2), dst=MAC1).hex(),  # 10/8 but not 10.1/16, port 22, other dl_dst
                 eth(0x0806, arp).hex(),
                 eth(0x88b5, b"z" * 30, dst=MAC1).hex(),                        # matches only the all-wildcard / in_port flows
+                eth(0x0800, ip("10.1.1.1", "10.2.2.2", 6, tcp, tos=2)).hex(),  # frames[0] with ECT(0) in the ToS byte (D36's input)
                 eth(0x0806, P.arp(opcode=257, hwsrc=E(b"\0\0\0\0\0\1"), protosrc=IP("10.0.0.1"), protodst=IP("10.0.0.2"))).hex(),  # D37's input
             ]
         return self._frames
@@ -565,8 +580,7 @@ class C04(Check):
     def oracle(self, case, obs):
         if case.get("corr_only"): return None          # model-vs-code tie on a witness whose oracle failure is reported by its twin case
         if case.get("tag") in C03_GATED:               # input class of a C03 finding: judged only if the tree claims that repair
-            g = C03_GATED[case["tag"]]
-            if g is None or not self.cfg[3 + g]: return None
+            if not self.cfg[C03_GATED[case["tag"]]]: return None
         r = self.compare(case, obs, self.spec_run(case))
         if r is None: return None
         n, text = r
@@ -626,7 +640,11 @@ class C04(Check):
 
     def corpus(self):
         cases = []
-        WITNESSES["arp_opcode_high"] = [fm(ADD, M_ARP_REQ, 100, cookie=1), {"op": "pkt", "frame": self.frames()[5], "port": 3}]
+        ecn = {"op": "pkt", "frame": self.frames()[5], "port": 1}
+        WITNESSES["arp_opcode_high"] = [fm(ADD, M_ARP_REQ, 100, cookie=1), {"op": "pkt", "frame": self.frames()[6], "port": 3}]
+        # tos_ecn_defect (C03's D36): an ECN-marked packet is harmless until a flow compares the ToS byte; then it must still hit the
+        # DSCP-0 flow, and the same flow written with another ECN bit replaces it
+        WITNESSES["tos_ecn_defect"] = [ecn, fm(ADD, M_TOS0, 100, cookie=1), ecn, fm(ADD, M_TOS2, 100, cookie=2)]
         for name, ops in sorted(WITNESSES.items()):
             cases.append({"max": 100, "ops": copy.deepcopy(ops), "tag": name})
             cases.append({"max": 100, "ops": copy.deepcopy(ops), "tag": name, "corr_only": True})
@@ -656,6 +674,11 @@ class C04(Check):
                                             fm(DELETE, M_ALL, 0, acts=ACTS[3], buf=2), pk(4, 2), fm(MODIFY, M_IP, 5, acts=ACTS[6], cookie=3, buf=1), fm(ADD, M_IP, 5, cookie=4, buf=0),
                                             fm(DELETE_STRICT, M_IP, 5, buf=7), fm(ADD, M_IP, 100, EMERG, cookie=5, buf=1)]},
             {"max": 100, "bufs": 0, "ops": [pk(3, 3), fm(ADD, M_ARP, 100, buf=1)]},
+            # outputs to the controller: on a hit (one and two of them, pool filling up), and while a buffer is being released
+            {"max": 100, "bufs": 3, "ops": [fm(ADD, M_IP, 100, acts=ACTS[7], cookie=1), pk(0), pk(3, 3), fm(MODIFY, M_IP, 5, acts=ACTS[8], cookie=2), pk(0), pk(1),
+                                            fm(ADD, M_ARP, 100, acts=ACTS[7], cookie=3, buf=2), fm(DELETE, M_ALL, 0, acts=ACTS[8], buf=1), pk(3, 3),
+                                            fm(ADD, M_TCP80, 7, acts=ACTS[8], cookie=4, buf=3), pk(0)]},
+            {"max": 100, "bufs": 1, "ops": [fm(ADD, M_ALL, 1, acts=ACTS[8], cookie=1), pk(4, 2), pk(4, 2), fm(DELETE_STRICT, M_ALL, 1, acts=ACTS[7], buf=1)]},
             # unknown commands: refused, nothing else happens (not even the buffer)
             {"max": 100, "ops": [pk(3, 3), fm(7, M_ALL, 0, buf=1), fm(0xffff, M_ARP, 100, SEND_FLOW_REM, cookie=1), fm(5, M_ALL, 0), fm(ADD, M_ARP, 100, buf=1)]},
             # CHECK_OVERLAP on address prefixes: nested, partially overlapping, disjoint; other priority; exact flow inside a prefix
@@ -674,12 +697,15 @@ class C04(Check):
             if rng.random() < 0.04: flags |= EMERG
             if rng.random() < 0.03: cmd = rng.choice([5, 7, 0xffff])
             buf = rng.choice([1, 1, 2, 3, 0, 9]) if rng.random() < 0.2 else None
-            pool = MATCHES + ([M_ARP_EXACT] if self.cfg[5] else []) + ([M_ALL_RAWIP] if self.cfg[4] else [])   # input classes of D26 / D38 once repaired
+            base = MATCHES if (self.cfg[6] or not self._ecn_case) else [m for m in MATCHES if m is not M_EXACT]   # see generate()
+            pool = (base + ([M_ARP_EXACT] if self.cfg[5] else []) + ([M_ALL_RAWIP] if self.cfg[4] else []) +   # input classes of D26 / D38 /
+                    ([M_TOS0, M_TOS2] if self.cfg[6] else []))                                                  # D36 once repaired
             return fm(cmd, rng.choice(pool), rng.choice(PRIOS), flags,
                       out_port=(rng.choice([NONE, NONE, 2, 3, 4]) if cmd in (DELETE, DELETE_STRICT) else rng.choice([NONE, 2])),
                       acts=(ACTS[rng.choice(BUF_ACTS)] if buf is not None else rng.choice(ACTS)), idle=rng.choice([0, 0, 1, 2, 3]),
                       hard=rng.choice([0, 0, 1, 3, 5]), cookie=rng.randint(0, 2 ** 64 - 1), buf=buf)
-        if r < 0.7: return {"op": "pkt", "frame": rng.choice(fr), "port": rng.choice([1, 1, 2, 3])}
+        if r < 0.7:      # incl. the ECN-marked frame when the history may carry one
+            return {"op": "pkt", "frame": rng.choice(fr[:6] if (self.cfg[6] or self._ecn_case) else fr[:5]), "port": rng.choice([1, 1, 2, 3])}
         if r < 0.82: return {"op": "adv", "dt": rng.choice([125, 500, 875, 1000, 1125, 2000, 3125])}
         if r < 0.93: return {"op": "sweep"}
         return {"op": rng.choice(["fstats", "astats"]), "m": rng.choice([M_ALL, M_ALL, M_IP, M_NET8, M_INPORT1]), "out_port": rng.choice([NONE, NONE, 2, 3])}
@@ -692,15 +718,18 @@ class C04(Check):
         n = 1500 if tier == "quick" else 15000
         for _ in range(n):
             L = rng.choice([5, 12, 30, 60, rng.randint(1, 60)])
+            # without repair D36 an ECN-marked frame is harmless only while no installed flow compares nw_tos (OpOk's state-dependent
+            # clause): such histories either carry ECN-marked frames and no ToS-comparing flow, or the other way round
+            self._ecn_case = rng.random() < 0.5
             case = {"max": rng.choice([100, 100, 100, 2, 3, 5]), "bufs": rng.choice([100, 100, 0, 1, 2, 3]),
                     "ops": [self.rand_op(rng, tier) for _ in range(L)]}
             yield case
 
 
 C04.theorems = ["Pox.C04." + t for t in (
-    "table_sorted", "table_sorted_init", "table_sorted_prefix", "no_duplicates", "removed_once", "departures_leave", "expiry_window", "clock_inv",
-    "flowmod_refines_partial", "history_refines_partial", "regular_repaired", "history_refines_repaired", "removed_stream_refines",
-    "selection_meaning", "overlap_meaning", "overlap_check_exact", "partial_overlap_witness", "cidr_overlap_witness",
-    "strict_hostbits_defect", "undefined_bits_defect", "stats_unwired_defect", "exact_rank_defect", "history_refines_full_defect_head",
-    "history_refines_full_defect_repaired")]
+    "table_sorted", "table_sorted_init", "table_sorted_prefix", "no_duplicates", "removed_once", "departures_leave", "expiry_window", "step_keeps",
+    "clock_inv", "flowmod_refines_partial", "history_refines_partial", "regular_repaired", "histOk_repaired", "history_refines_repaired",
+    "removed_stream_refines", "selection_meaning", "overlap_meaning", "overlap_check_exact", "partial_overlap_witness", "cidr_overlap_witness",
+    "strict_hostbits_defect", "undefined_bits_defect", "stats_unwired_defect", "exact_rank_defect", "tos_ecn_defect",
+    "history_refines_full_defect_head")]
 CHECK = C04
